@@ -371,3 +371,47 @@ silent("ok-c03-counter-else", "C03", E + "executor.py",
 v("c15-unfix-default-memo-type", "C15", "ATTR-MEMO", U + "coerce_input_value.py",
   "        if (\n            coerced_value is Undefined\n            or default_input._memoized_type is not type_  # noqa: SLF001\n        ):",
   "        if coerced_value is Undefined:")
+
+# -- behaviour-preserving rewrites that the round-2 rules must accept ------------------------------
+silent("ok-c01-next-with-default", "C01", V + "rules/defer_stream_directive_label.py",
+       "        try:\n            label_argument = next(\n                arg for arg in node.arguments or () if arg.name.value == \"label\"\n            )\n        except StopIteration:\n            return\n",
+       "        label_argument = next(\n            (arg for arg in node.arguments or () if arg.name.value == \"label\"), None\n        )\n        if label_argument is None:\n            return\n")
+silent("ok-c01-row-size-from-lowercase", "C01", "src/graphql/pyutils/suggestion_list.py",
+       "row_size = len(self._input_list) + 1", "row_size = len(self._input_lower_case) + 1")
+silent("ok-c10-line-plus-one", "C10", L + "lexer.py",
+       "                position += 1\n                self.line += 1\n                self.line_start = position\n                continue\n            if char == \"\\r\":",
+       "                position += 1\n                self.line = self.line + 1\n                self.line_start = position\n                continue\n            if char == \"\\r\":")
+silent("ok-c11-kind-local-before-use", "C11", L + "visitor.py",
+       "            keys = node if in_array else visitor_keys.get(node.kind, ())  # type: ignore",
+       "            kind = None if in_array else node.kind\n            keys = node if in_array else visitor_keys.get(kind, ())  # type: ignore")
+silent("ok-c13-reset-by-reassign", "C13", V + "rules/variables_in_allowed_position.py",
+       "        self.var_def_map.clear()", "        self.var_def_map = {}")
+silent("ok-c20-cache-chained-assign", "C20", T + "validate.py",
+       "        errors = context.errors\n        schema._validation_errors = errors  # noqa: SLF001\n",
+       "        errors = schema._validation_errors = context.errors  # noqa: SLF001\n")
+silent("ok-c16-float-only-in-test", "C16", T + "scalars.py",
+       "def coerce_id_from_number(value: float) -> str:\n    if isinstance(value, float) and (not isfinite(value) or int(value) != value):",
+       "def coerce_id_from_number(value: float) -> str:\n    if isinstance(value, float) and not float(value).is_integer():")
+silent("ok-c06-return-after-abort", "C06", E + "executor.py",
+       "        futures = self.pending_incremental_futures\n        if futures:\n            pending = list(futures)\n            for future in pending:\n                future.cancel()\n            await gather(*pending, return_exceptions=True)\n",
+       "        futures = self.pending_incremental_futures\n        if not futures:\n            return\n        pending = list(futures)\n        for future in pending:\n            future.cancel()\n        await gather(*pending, return_exceptions=True)\n")
+silent("ok-c03-typecheck-local", "C03", E + "executor.py",
+       "                    if not await self.with_abort_signal(is_type_of):\n                        raise invalid_return_type_error(",
+       "                    type_ok = await self.with_abort_signal(is_type_of)\n                    if not type_ok:\n                        raise invalid_return_type_error(")
+silent("ok-c05-while-truthy", "C05", E + "incremental/build_execution_plan.py",
+       "        while parent_defer_usage is not None:", "        while parent_defer_usage:")
+silent("ok-c08-escape-range-rewritten", "C08", L + "lexer.py",
+       "        if 0 <= code <= 0xD7FF or 0xE000 <= code <= 0x10FFFF:", "        if 0 <= code < 0xD800 or 0xDFFF < code <= 0x10FFFF:")
+silent("ok-c08-block-flag-ifexp", "C08", L + "printer.py",
+       "        if node.block:\n            return print_block_string(node.value)\n        return print_string(node.value)",
+       "        return print_block_string(node.value) if node.block else print_string(node.value)")
+silent("ok-c15-int-is-integer", "C15", T + "scalars.py",
+       "def coerce_int_from_number(value: float) -> int:\n    if isinstance(value, float) and (not isfinite(value) or int(value) != value):",
+       "def coerce_int_from_number(value: float) -> int:\n    if isinstance(value, float) and not value.is_integer():")
+silent("ok-c19-root-without-cast", "C19", U + "build_ast_schema.py",
+       "                schema_kwargs[\"query\"] = cast(\"GraphQLObjectType\", type_)", "                schema_kwargs[\"query\"] = type_  # type: ignore[typeddict-item]")
+silent("ok-c14-all-pairs-combinations", "C14", V + "rules/overlapping_fields_can_be_merged.py",
+       "            for i, field in enumerate(fields):\n                for other_field in fields[i + 1 :]:\n                    conflict = find_conflict(",
+       "            from itertools import combinations\n\n            for field, other_field in combinations(fields, 2):\n                if True:\n                    conflict = find_conflict(")
+silent("ok-c18-options-by-keyword", "C18", U + "introspection_from_schema.py",
+       "            experimental_directive_deprecation,\n            one_of,\n", "            one_of=one_of,\n            experimental_directive_deprecation=experimental_directive_deprecation,\n")
